@@ -88,6 +88,22 @@ prop('C06',
          'SemanticDecisionNNFBuilder (semantic-hash node store): C11',
      ])
 
+prop('C15',
+     units=['cnf'],
+     kani=[{'name': 'k_lit_roundtrip'}, {'name': 'k_lit_implies'}],
+     assumptions=[A_VERUS, A_EXTRACT, A_KANI,
+                  'A-bitset: bit_set::BitSet insert/remove/contains behave as a mathematical set of usize (external crate, trusted stub)',
+                  'A-lit: in the Verus unit Literal is a two-field stub (label, polarity); the bit packing it stands for is proved on the real code by the Kani harnesses of this same check'],
+     replay='cnf',
+     explanation='Cnf::eval == "every clause has a literal true under the assignment" and Cnf::is_sat_partial == "every clause has a literal ASSIGNED true" (empty clause => false, empty list => true), '
+                 'by nested loop invariants over the real loops; PartialModel get/set/unset/is_set/lit_implied/lit_neg_implied and VarSet insert/remove/contains against a set view, with the frame '
+                 '(other variables unchanged) and the invariant that no variable is in both sets; Literal bit packing by Kani over all u64 x bool',
+     not_covered=[
+         'Cnf::new (iterator chains, sort_by_key, dedup)', 'Cnf::condition and CnfHasher (labelled continue inside for; HashSet): the residual-formula hasher clause of the property is NOT decided',
+         'AssignmentIter::next (fold closure) and Cnf::wmc (brute-force counting)',
+         'VarSet union/minus/intersect (BitSet iterator adapters)',
+     ])
+
 
 def proved_includes(root):
     """set of inc/*.rs files that some unit template includes non-assumed"""
